@@ -51,7 +51,7 @@ func TestMain(m *testing.M) { vk.Main(m) }
 var knownOpen = map[string]bool{
 	// (the 27 root causes found when this check was first run, and AF-29..32, were fixed in /repo)
 
-	// (cyclic values AF-40, foreign contexts AF-39 and panicking print methods AF-41, found by widening the pool, were
+	// (cyclic values AF-38, foreign contexts AF-37 and panicking print methods AF-39, found by widening the pool, were
 	// fixed in /repo as well)
 }
 
@@ -380,6 +380,18 @@ func (p *pv) spell() string {
 func feeder(name string) (string, error) {
 	if name == "abc" || name == "p" {
 		return `[partial <%= 1 + 1 %>]`, nil
+	}
+	switch name {
+	case "selfp": // includes itself without end
+		return `x<%= partial("selfp") %>`, nil
+	case "pinga":
+		return `a<%= partial("pingb") %>`, nil
+	case "pingb":
+		return `b<%= partial("pinga") %>`, nil
+	case "selflay": // its layout is itself
+		return `l<%= partial("p", {layout: "selflay"}) %>`, nil
+	case "countp": // finite: includes itself while n < 60
+		return `[<%= n %>]<%= if (n < 60) { %><%= partial("countp", {n: n + 1}) %><% } %>`, nil
 	}
 	return "", fmt.Errorf("no partial named %q", name)
 }
@@ -973,7 +985,7 @@ var widePool = []*pv{
 
 // suspectPool is appended to the pool when includeSuspect is set (or VERIF_C04_SUSPECT=1): see the types above.
 // Root cause on the current tree: compiler.go write() calls t.Interface() / t.HTML() / t.String() without recover.
-var includeSuspect = true // the output sink recovers such panics since AF-41
+var includeSuspect = true // the output sink recovers such panics since AF-39
 
 var suspectPool = []*pv{
 	w("rvzero", "struct", func() interface{} { return reflect.Value{} }),
@@ -1015,10 +1027,13 @@ var coreNames = []string{"int", "int0", "intneg", "float64", "nan", "str", "stre
 
 var core = map[*pv]bool{}
 
+// quickCore: the (fewer) partners of a Wide value in the quick tier
+var quickCoreNames = map[string]bool{"int": true, "intneg": true, "str": true, "nil": true, "unk": true, "nilpS": true, "ints": true, "msa": true, "sval": true, "f0": true, "unhash": true, "lit_arr": true}
+
 var tiny = map[*pv]bool{} // six(): the partners of a value that contains itself in the quick tier
 
 // pairOK tells whether the pair (a, b) is enumerated. Pairs of two values of the original pool always are.
-// A Wide value meets: every value (thorough) or the core values (quick); another Wide value only in the cheap
+// A Wide value meets: every value (thorough) or twelve of the core values (quick); another Wide value only in the cheap
 // matrices (square=true) of the thorough tier.
 func pairOK(r *vk.Run, a, b *pv, square bool) bool {
 	if r.Quick() && (a.Fatal || b.Fatal) {
@@ -1039,9 +1054,9 @@ func pairOK(r *vk.Run, a, b *pv, square bool) bool {
 	case a.Wide && b.Wide:
 		return square && r.Thorough()
 	case a.Wide:
-		return r.Thorough() || core[b]
+		return r.Thorough() || core[b] && quickCoreNames[b.Name]
 	}
-	return r.Thorough() || core[a]
+	return r.Thorough() || core[a] && quickCoreNames[a.Name]
 }
 
 func init() {
@@ -2038,6 +2053,38 @@ func matrixStmt(r *vk.Run, b *builder) {
 	}
 }
 
+// matrixEndless: template programs that would never come to an end on their own - a function calling itself
+// (directly, mutually, through a parameter), a stored block that renders itself, a partial that includes itself
+// (directly, through another partial, through its layout). "Executing the template returns output or an error":
+// each must end in an error, in bounded time. The finite neighbours (deep but terminating) must render.
+func matrixEndless(r *vk.Run, b *builder) {
+	endless := []string{
+		`<% let f = fn() { return f() } %><%= f() %>`,
+		`<% let f = fn(n) { return 1 + f(n + 1) } %><%= f(0) %>`,
+		`<% let g = fn(n) { return h(n) } %><% let h = fn(n) { return g(n) } %><%= g(1) %>`,
+		`<% let ap = fn(k) { return k(k) } %><%= ap(ap) %>`,
+		`<% let f = fn() { %><%= f() %><% } %><%= f() %>`,
+		`<% contentFor("selfc") { %>x<%= contentOf("selfc") %><% } %><%= contentOf("selfc") %>`,
+		`<% contentFor("ca") { %>a<%= contentOf("cb") %><% } %><% contentFor("cb") { %>b<%= contentOf("ca") %><% } %><%= contentOf("ca") %>`,
+		`<%= partial("selfp") %>`,
+		`<%= partial("pinga") %>`,
+		`<%= partial("selflay") %>`,
+		`<% let f = fn() { %><%= partial("selfp") %><% } %><%= f() %>`,
+	}
+	for _, t := range endless {
+		b.add(cell{Case{Matrix: "endless", Tmpl: vk.Text(t)}, true, "endless/must fail"})
+	}
+	finite := []string{
+		`<% let f = fn(n) { if (n == 0) { return 0 } return 1 + f(n - 1) } %><%= f(300) %>`,
+		`<% let ev = fn(n) { if (n == 0) { return true } return od(n - 1) } %><% let od = fn(n) { if (n == 0) { return false } return ev(n - 1) } %><%= ev(200) %>`,
+		`<%= partial("countp", {n: 1}) %>`,
+		`<% contentFor("once") { %>x<% } %><%= for (i) in [1, 2, 3] { %><%= contentOf("once") %><% } %>`,
+	}
+	for _, t := range finite {
+		b.add(cell{Case{Matrix: "endless", Tmpl: vk.Text(t)}, true, "endless/finite neighbour"})
+	}
+}
+
 // ---- further constructs ---------------------------------------------------------------------------------
 
 var members2 = []string{
@@ -2903,6 +2950,7 @@ func TestProp(t *testing.T) {
 	runCells(r, "chain: index chains c[i][j][k], calls on results c()() c[0]() g(c)(), 40 shapes + 100 further member shapes x pool", matrixChain)
 	runCells(r, "odd: pool x 60 shapes: loop variables / iterable re-assigned in the body, break / continue / return in odd positions, pool values as hash keys, context keys the engine reads", matrixOdd)
 	runCells(r, "prefix: pool x 67 shapes of the prefix operators - and ! (spaced, doubled, parenthesised, on calls / absent entries / nil members, nested in infix expressions, in if / let / for / return / arguments / literals) + 21 literal operands x 15 shapes", matrixPrefix)
+	runCells(r, "endless: 11 template programs that never end on their own (recursion of functions, stored blocks and partials) + 4 finite neighbours", matrixEndless)
 	runCells(r, "ctx: pool x 29 statement, loop, call and helper shapes executed with a helptest.HelperContext as the context and through BuffaloRenderer; 9 templates with a nil data map", matrixCtx)
 	runCells(r, "shared: pool x 11 pairs of templates rendered one after the other over the same data map (let / fn / contentFor / stored helper context / self-containing array carried over)", matrixShared)
 	runCells(r, "reexec: 38 templates, each parsed once and executed for every pool value in turn (x of changing kind), in rotated orders", matrixReexec)
